@@ -1,0 +1,32 @@
+//go:build verif
+
+package agent
+
+// Contracts for the magic-number handshake (property C34) and the agent
+// bundle lookup (C46). Comment-only file: compiled only under the "verif"
+// build tag, contains no code. The "//@" lines are read by /verif/govc.
+
+//@ func sendMagicNumber
+//@   at call io.Writer.Write#1 assert[bytes] len(arg1) == 3 && arg1[0] == magicNumber[0] && arg1[1] == magicNumber[1] && arg1[2] == magicNumber[2]
+//@   ensures[once] wcalls[writer] == old(wcalls[writer]) + 1
+//@   ensures[all] result == nil ==> accepted[writer] == old(accepted[writer]) + 3
+
+//@ func receiveAndCompareMagicNumber
+//@   requires !rfailed
+//@   ensures[fail] (result1 != nil) == rfailed
+//@   ensures[cmp] result1 == nil ==> (result0 <==> (lastread[0] == expected[0] && lastread[1] == expected[1] && lastread[2] == expected[2]))
+//@   ensures[failfalse] result1 != nil ==> !result0
+
+//@ func ClientHandshake
+//@   requires !rfailed
+//@   ensures[match] result == nil ==> !rfailed && lastread[0] == serverMagicNumber[0] && lastread[1] == serverMagicNumber[1] && lastread[2] == serverMagicNumber[2]
+//@   ensures[sent] result == nil ==> accepted[stream] == old(accepted[stream]) + 3
+//@   ensures[reject] !rfailed && (lastread[0] != serverMagicNumber[0] || lastread[1] != serverMagicNumber[1] || lastread[2] != serverMagicNumber[2]) ==> result != nil
+//@   at call sendMagicNumber#1 assert[own] arg1 == clientMagicNumber
+
+//@ func ServerHandshake
+//@   requires !rfailed
+//@   ensures[match] result == nil ==> !rfailed && lastread[0] == clientMagicNumber[0] && lastread[1] == clientMagicNumber[1] && lastread[2] == clientMagicNumber[2]
+//@   ensures[sent] result == nil ==> accepted[stream] == old(accepted[stream]) + 3
+//@   ensures[reject] !rfailed && (lastread[0] != clientMagicNumber[0] || lastread[1] != clientMagicNumber[1] || lastread[2] != clientMagicNumber[2]) ==> result != nil
+//@   at call sendMagicNumber#1 assert[own] arg1 == serverMagicNumber
